@@ -23,7 +23,7 @@ structure Ctx9 (inp : RunInput) (s : Sys) : Prop where
   a4b : ∀ n nd, s.nodes n = some nd → nd.pc = .afterSelf2 → nd.status ≠ .none
   a6 : ∀ n, (stOf s n).finished = true → cTerm s n ≥ 1
 
-variable {inp : RunInput} [NoFailDeliver inp]
+variable {inp : RunInput}
 
 theorem quiet_not_terminal {e : Ev} (h : e.quiet = true) (t : Name) : Ev.isTerminalOf t e = false := by
   cases e <;> simp [Ev.quiet, Ev.isTerminalOf] at h ⊢
@@ -252,24 +252,32 @@ theorem invT_select {s s' : Sys} {n : Name} {nd : Node} {extra : List Ev} (h : I
           | nil => exact c1 hl
           | cons x xs =>
             obtain ⟨e1, e2⟩ := hng0.ig x (by rw [hl]; simp)
-            have hsx : StageG inp (stOf s) n x := by
+            have hsx : StageF inp (stOf s) n x := by
               rcases e2 with e2 | e2
               · exact e2
               · rw [notLate] at e2; cases e2
-            have hg := hrf.2.2.2 x (fwd x hsx)
-            rw [hfin x (by rw [e1]; rfl), e1] at hg; cases hg
+            -- `x` is a determined dependency, or hangs below a failed calc_dep that is one: either is not good
+            rcases hsx.cases with y | ⟨q, y, yf⟩
+            · have hg := hrf.2.2.2 x (fwd x y)
+              rw [hfin x (by rw [e1]; rfl), e1] at hg; cases hg
+            · have hg := hrf.2.2.2 q (fwd q y)
+              rw [hfin q (by rw [yf]; rfl), yf] at hg; cases hg
         · have := hrf.1; rw [c1] at this; cases this
       · by_cases c2 : nd.bad ≠ []
         · cases hl : nd.bad with
           | nil => exact c2 hl
           | cons x xs =>
             obtain ⟨e1, e2⟩ := hng0.bd x (by rw [hl]; simp)
-            have hsx : StageG inp (stOf s) n x := by
+            have hsx : StageF inp (stOf s) n x := by
               rcases e2 with e2 | e2
               · exact e2
               · rw [notLate] at e2; cases e2
-            have hg := hrf.2.2.2 x (fwd x hsx)
-            rw [hfin x (by rw [e1]; rfl), e1] at hg; cases hg
+            -- `x` is a determined dependency, or hangs below a failed calc_dep that is one: either is not good
+            rcases hsx.cases with y | ⟨q, y, yf⟩
+            · have hg := hrf.2.2.2 x (fwd x y)
+              rw [hfin x (by rw [e1]; rfl), e1] at hg; cases hg
+            · have hg := hrf.2.2.2 q (fwd q y)
+              rw [hfin q (by rw [yf]; rfl), yf] at hg; cases hg
         · by_cases c3 : inp.statusOf n = .error
           · exact hrf.2.1 c3
           · by_cases c4 : effStatus inp n = .utd
